@@ -152,6 +152,11 @@ type specError struct{ msg string }
 
 func (e *specError) Error() string { return e.msg }
 
+// EOFAbsolute is the absolute file offset the superblock's end-of-file address denotes. The stored
+// value is an absolute address computed with the stored base address; when the superblock sits
+// elsewhere (user block added later) it moves by the same amount.
+func (f *File) EOFAbsolute() uint64 { return f.EOFAddr - f.StoredBaseAddr + f.BaseAddr }
+
 // Lookup returns the object a hard-link path leads to, or nil.
 func (f *File) Lookup(path string) *Object {
 	if f == nil {
@@ -170,7 +175,10 @@ func (f *File) Lookup(path string) *Object {
 // recorded in the superblock, is empty/inverted, and every pair of overlapping extents.
 func (f *File) CheckExtents(fileSize uint64) []string {
 	var out []string
-	eof := f.BaseAddr + f.EOFAddr
+	eof := f.EOFAbsolute()
+	if eof > fileSize {
+		out = append(out, fmt.Sprintf("superblock end-of-file address 0x%x lies beyond the file size 0x%x (file truncated)", eof, fileSize))
+	}
 	ex := make([]Extent, len(f.Extents))
 	copy(ex, f.Extents)
 	sort.SliceStable(ex, func(i, j int) bool {
@@ -190,7 +198,7 @@ func (f *File) CheckExtents(fileSize uint64) []string {
 		if e.End > fileSize {
 			out = append(out, fmt.Sprintf("beyond file size 0x%x: %s", fileSize, desc(e)))
 		}
-		if e.End > eof {
+		if e.End > eof && !(f.tol != nil && f.tol["superblock-eof-stale"]) {
 			out = append(out, fmt.Sprintf("beyond superblock EOF address 0x%x: %s", eof, desc(e)))
 		}
 	}
@@ -228,6 +236,11 @@ type dec struct {
 	ownerHdr   uint64
 	depth      int
 	rawUsed    uint64
+	lib        bool     // decoding a datatype in library-layout mode
+	libDevs    []string // deviations met in library-layout mode
+
+	rootCached                   bool
+	rootCachedBT, rootCachedHeap uint64
 }
 
 func (d *dec) fail(format string, a ...interface{}) {
@@ -524,4 +537,52 @@ func (d *dec) walk() {
 		}
 	}
 	d.scanVLen()
+	if d.rootCached {
+		d.checkCachedStab(stEntry{name: "/", addr: f.RootAddr}, "<superblock root entry>", d.rootCachedBT, d.rootCachedHeap)
+	}
+	// every structure must lie below the end-of-file address recorded in the superblock
+	eof := f.EOFAbsolute()
+	for _, e := range f.Extents {
+		if e.End > eof {
+			d.deviate("superblock-eof-stale", "superblock end-of-file address 0x%x: %s [0x%x,0x%x) of %s lies beyond it", eof, e.Kind, e.Start, e.End, e.Owner)
+			break
+		}
+	}
+}
+
+// KnownDeviations lists every named deviation this decoder can tolerate (see notes/indep-deviations.md).
+var KnownDeviations = []string{
+	"superblock-crc32",
+	"superblock-eof-stale",
+	"ohdr-v2-no-checksum",
+	"btree2-crc32",
+	"fheap-crc32",
+	"attr-btree2-type5",
+	"fheap-offsets-exclude-block-header",
+	"vlen-element-no-length",
+	"filter-pipeline-v2-with-v1-layout",
+	"fletcher32-le-words",
+	"chunked-no-elemsize-dim",
+	"chunk-btree-node-unpadded",
+	"chunk-btree-addr-zero",
+	"datatype-fixed-props",
+	"datatype-float-props",
+	"datatype-string-extra-byte",
+	"datatype-compound-v3-layout",
+	"datatype-enum-layout",
+	"datatype-vlen-layout",
+	"group-btree-keys",
+	"snod-order",
+	"snod-capacity-32",
+	"snod-empty",
+	"btree1-node-truncated",
+}
+
+// TolerateAll returns Options tolerating every known deviation.
+func TolerateAll() Options {
+	m := map[string]bool{}
+	for _, n := range KnownDeviations {
+		m[n] = true
+	}
+	return Options{Tolerate: m}
 }
